@@ -426,14 +426,25 @@ fn ensure_no_vertex_name_conflicts(querying_schema: &Schema, adapter: Arc<Schema
     rows.sort_unstable();
 
     let mut uniq: HashMap<String, String> = HashMap::new();
+    let mut uniq_variants: HashMap<String, String> = HashMap::new();
 
     for row in rows {
         let name = row.name.clone();
         // we normalize to lower snake case here, however in vertex name we capitalize this name instead
         // it doesn't really matter though because the important one is just to normalize to the same capitalization scheme
         let converted = escaped_rust_name(to_lower_snake_case(&name));
-        let v = uniq.insert(converted, name);
+        let v = uniq.insert(converted, name.clone());
         if let Some(v) = v {
+            panic!(
+                "cannot generate adapter for a schema containing both '{}' and '{}' vertices, consider renaming one of them",
+                v, row.name
+            );
+        }
+
+        // Names like `fOo` and `FOo` have different snake case forms (`f_oo` and `foo`),
+        // but become the same `Vertex` enum variant name.
+        let variant = escaped_rust_name(upper_case_variant_name(&name));
+        if let Some(v) = uniq_variants.insert(variant, name) {
             panic!(
                 "cannot generate adapter for a schema containing both '{}' and '{}' vertices, consider renaming one of them",
                 v, row.name
